@@ -1,16 +1,31 @@
 (* Extract/Extract.v — extraction of the executable models and specifications to OCaml.
    ExtrOcamlBasic only: ascii, nat, N, Z, positive stay the extracted inductives. *)
-From CV Require Import Base.Str Model.ShellValue Spec.FmtOracle.
+From CV Require Import Base.Str Model.ShellValue Spec.FmtOracle Run.Fields Run.RunMultiParts.
 Require Import ExtrOcamlBasic.
 
 Definition n_value := B [118;97;108;117;101].                           (* value *)
 Definition n_fmt_oracle := B [102;109;116;95;111;114;97;99;108;101].    (* fmt_oracle *)
 Definition n_fdecode := B [102;100;101;99;111;100;101].                 (* fdecode *)
 
+(* runner table: name -> function on field lists *)
+Definition runners : list (str * (list str -> list str)) :=
+  [ (n_value, run_value);
+    (n_fmt_oracle, run_fmt_oracle);
+    (n_fdecode, run_fdecode);
+    (B [109;117;108;116;105;112;97;114;116;115], run_multiparts);                                      (* multiparts *)
+    (B [109;117;108;116;105;112;97;114;116;115;95;111;114;97;99;108;101], run_multiparts_oracle)       (* multiparts_oracle *)
+  ].
+
+Fixpoint lookup_runner (name : str) (t : list (str * (list str -> list str))) : option (list str -> list str) :=
+  match t with
+  | [] => None
+  | (n, f) :: t' => if str_eqb name n then Some f else lookup_runner name t'
+  end.
+
 Definition dispatch (name : str) (c : list str) : list str :=
-  if str_eqb name n_value then run_value c
-  else if str_eqb name n_fmt_oracle then run_fmt_oracle c
-  else if str_eqb name n_fdecode then run_fdecode c
-  else [B [85;78;75;78;79;87;78]].
+  match lookup_runner name runners with
+  | Some f => f c
+  | None => [B [85;78;75;78;79;87;78]]
+  end.
 
 Extraction "model.ml" dispatch.
